@@ -131,6 +131,17 @@ CHECKS['C14'] = (
     'Partial: textwrap is a parameter; readBack_headed for the three modelled readers is checked, not proved.',
     BASE_NOTE + 'textwrap, str.splitlines of CPython.', '6/C14')
 
+CHECKS['C04'] = (
+    'Lean 4 theorems (write_matrix: the blank-separated tokens of every printed row are exactly its cells, any padding; exponent-marker conversion touches '
+    'only e/E; the function-type gate and every writer pipeline over tables regenerated from writers/*.py) + differential execution of the write_matrix and '
+    'gate models + exact-decimal coverage check of the real text of every format',
+    'Proof (on the model): rowLine_tokens / writeMatrix_row_tokens (no cell dropped, glued or changed), convExp_only_marker, gate_rejects, gateless_formats, '
+    'restricted_gates, pipelines_preserve (each of the 29 extracted normalisation pipelines uses only operations proved set-/span-preserving in C02/C07), '
+    'optimize_only_veloxchem. Tie: write_matrix model = printing.write_matrix on sampled shell/ECP matrices, gate model = real gate on all 29x64 cases. '
+    'The 29 printing loops themselves are not modelled one by one: their output is checked token by token against the exact decimal values of the basis '
+    'on every explored (basis, format) — partial, stated as such.',
+    BASE_NOTE + 'the tokeniser/coverage oracle of the harness; rounding allowed for acesii and crystal at the printed width.', '6/C04')
+
 NOT_YET = {}
 
 
